@@ -689,13 +689,14 @@ class StoryInsert(MosFile):
                 f"{self.__class__.__name__} error in {self.message_id} - target story not found"
             )
         ro_story_ids = {story.id for story in ro.stories}
-        for i, new_story in enumerate(self.source_stories, start=story_index):
+        for new_story in self.source_stories:
             if new_story.id in ro_story_ids:
                 msg = f"{self.__class__.__name__} error in {self.message_id} - story already found in running order"
                 logger.warning(msg)
                 warnings.warn(msg, DuplicateStoryWarning)
                 continue
-            insert_node(parent=ro.base_tag, node=new_story.xml, index=i)
+            insert_node(parent=ro.base_tag, node=new_story.xml, index=story_index)
+            story_index += 1
         return ro
 
     def inspect(self):
@@ -1615,13 +1616,14 @@ class EAStoryInsert(ElementAction):
                     f"{self.__class__.__name__} error in {self.message_id} - target story not found"
                 )
         ro_story_ids = {story.id for story in ro.stories}
-        for i, new_story in enumerate(self.stories, start=story_index):
+        for new_story in self.stories:
             if new_story.id in ro_story_ids:
                 msg = f"{self.__class__.__name__} error in {self.message_id} - story already found in running order"
                 logger.warning(msg)
                 warnings.warn(msg, DuplicateStoryWarning)
             else:
-                insert_node(parent=ro.base_tag, node=new_story.xml, index=i)
+                insert_node(parent=ro.base_tag, node=new_story.xml, index=story_index)
+                story_index += 1
         return ro
 
     def inspect(self):
